@@ -741,8 +741,10 @@ Definition do_start_task (sp : spec) (s : st) (tid : nat) (first rerun reset : b
     then (commit (check_affected sp (schedule_action (task_set_state s tid RUNNING, []) tid) tid), Ok)
     else (commit (check_affected sp (s, []) tid), Ok)
   else if negb rerun && negb (is_idle (t_state r)) then
-    (* F18 fix: a resume-issued request for a task that has started meanwhile is ignored *)
-    (s, Ok)
+    (* F18 fix: a resume-issued request for a task that has started meanwhile is ignored;
+       F20 fix: but it may have been the last thing the workflow waited for: a completion check
+       is registered *)
+    (commit (s, [OCheck]), Ok)
   else if negb rerun then
     (* F17 fix: a task that never started is started like a new one (_run_new) *)
     (commit (check_affected sp (schedule_action (task_set_state s tid RUNNING, []) tid) tid), Ok)
